@@ -138,6 +138,22 @@ def run(chk):
                           "Op::resolve has no VrlValueArithmetic call for opcode(s) %s" % sorted(missing), detail=d)
 
     float_equality_exact(chk, "R10d")
+    rid = "R10e"
+    chk.rule(rid, "comparison/equality methods use the IEEE partial order, never a total order (total_cmp distinguishes -0.0 from 0.0)", floor=5)
+    for mname in ("try_gt", "try_ge", "try_lt", "try_le", "eq_lossy"):
+        mn = arith.method(mname)
+        if not facts.has(mn):
+            chk.fail_closed(rid, "anchor not found: %s" % mn)
+            continue
+        fam_ = facts.family(mn)
+        tot = [(x, c) for x in fam_ for c in facts.callees(x) if re.search(r"::total_cmp$", c)]
+        d = {"method": mname, "total_order_calls": [c for x, c in tot]}
+        chk.instance(rid, d, ok=not tot)
+        for x, c in tot:
+            xb = facts.body(x)
+            chk.violation(rid, xb.file, mn, "%s uses %s" % (mname, c.rsplit("::", 1)[-1]),
+                          "%s compares floats with %s: the total order puts -0.0 below 0.0 and orders NaNs, so `-0.0 < 0.0` becomes true and `<=`/`>=` disagree "
+                          "with `==`" % (mname, c), detail=d)
 
     # ---- R10c integer exactness
     rid = "R10c"
